@@ -7,7 +7,7 @@
 // TODO: When this is used in more places remove this and refine the interface.
 #![allow(dead_code)]
 
-use crate::GDErrorKind::{HostLookup, InvalidInput, PacketReceive, PacketSend, ProtocolFormat};
+use crate::GDErrorKind::{HostLookup, InvalidInput, PacketReceive, PacketSend, ProtocolFormat, SocketConnect};
 use crate::{GDResult, TimeoutSettings};
 
 use std::io::Read;
@@ -109,6 +109,24 @@ impl<S: Into<String>> HttpSettings<S> {
     pub fn header(mut self, name: S, value: S) -> HttpSettings<S> {
         self.headers.push((name, value));
         self
+    }
+}
+
+/// The error a failed `call()`/`send_*()` stands for: the server could not be
+/// connected to, or the request could not be exchanged with it.
+fn request_error(error: ureq::Error) -> crate::GDError {
+    match error.kind() {
+        ureq::ErrorKind::ConnectionFailed => SocketConnect.context(error),
+        _ => PacketSend.context(error),
+    }
+}
+
+/// The error a failed read of a JSON body stands for: the document is not what
+/// was expected, or the rest of it did not arrive.
+fn body_error(error: std::io::Error) -> crate::GDError {
+    match error.kind() {
+        std::io::ErrorKind::InvalidData => ProtocolFormat.context(error),
+        _ => PacketReceive.context(error),
     }
 }
 
@@ -291,7 +309,7 @@ impl HttpClient {
         let request = self.make_request(method, headers);
 
         // Send the request.
-        let http_response = request.call().map_err(|e| PacketSend.context(e))?;
+        let http_response = request.call().map_err(request_error)?;
 
         let length = if let Some(length) = http_response.header("Content-Length") {
             length
@@ -323,9 +341,9 @@ impl HttpClient {
         // Send the request and parse the response as JSON.
         request
             .call()
-            .map_err(|e| PacketSend.context(e))?
+            .map_err(request_error)?
             .into_json::<T>()
-            .map_err(|e| ProtocolFormat.context(e))
+            .map_err(body_error)
     }
 
     /// Send a HTTP request with JSON data and parse the JSON response.
@@ -342,9 +360,9 @@ impl HttpClient {
 
         request
             .send_json(data)
-            .map_err(|e| PacketSend.context(e))?
+            .map_err(request_error)?
             .into_json::<T>()
-            .map_err(|e| ProtocolFormat.context(e))
+            .map_err(body_error)
     }
 
     /// Send a HTTP request with FORM data and parse the JSON response.
@@ -361,9 +379,9 @@ impl HttpClient {
 
         request
             .send_form(data)
-            .map_err(|e| PacketSend.context(e))?
+            .map_err(request_error)?
             .into_json::<T>()
-            .map_err(|e| ProtocolFormat.context(e))
+            .map_err(body_error)
     }
 }
 
